@@ -18,9 +18,12 @@ func init() {
 		register("C18", fmt.Sprintf("C18.R%d", i+1), r)
 	}
 	register("C18", "C01.R7", ruleC01R7)
+	register("C18", "C02.R4", ruleC02R4)
+	register("C18", "C02.R5", ruleC02R5)
+	register("C18", "C02.R7", ruleC02R7)
 	register("C18", "C18.R6", ruleC18R6)
 	propExplanation["C18"] = "Enumerates every blocking primitive in production functions (bare send/receive, blocking select, range over channel, waits, network I/O, dial, HTTP) and requires each to be bounded by a rule — a timer / ticker / stop-signal case in the select, receive-until-closed on a channel that is closed on the stop path, Wait(timeout), I/O preceded by a deadline or with a timeout argument — or by a reviewed-table entry stating what bounds it (R1, R3); " +
-		"the stop signal aborts the active client session (R2); the bufferer closes its queue and signals before it waits, with a timeout, listener and connections are closed on stop (R4); nothing is left only in memory (C01.R7); no Signal/close can run twice on one object along a path (R6). " +
+		"the stop signal aborts the active client session (R2); the bufferer closes its queue and signals before it waits, with a timeout, listener and connections are closed on stop (R4); nothing is left only in memory: the feeder saves every holder (C01.R7), the client remembers the chunk in flight until it is queued for ACK, merges every holder at session end and hands the leftovers back before OnFinished (C02.R4/R5/R7); no Signal/close can run twice on one object along a path (R6). " +
 		"Not decided: the numeric bound, blocking inside a syscall that has a deadline, mutex waits (critical sections contain no blocking primitive other than those listed)."
 	propAssumptions["C18"] = []string{
 		"disk syscalls and mutex acquisitions return",
